@@ -33,6 +33,7 @@ import LispModel.Util
 import LispModel.Proofs.RoundTrip
 import LispModel.Proofs.ScanString
 import LispModel.Proofs.PrintRead
+import LispModel.Proofs.SeedLaws
 namespace LispModel.Props.C06
 open LispModel LispModel.Read LispModel.Print
 
@@ -283,5 +284,14 @@ example : ∃ v', readStr {} (utf8 (print sample)) = .ok v' ∧ structEqB sample
 
 /-- … and the same round trip by kernel evaluation of the model -/
 theorem sample_round_trips : roundTrips sample = true := by decide +kernel
+
+/-! ## laws added after the seeded changes of rounds 3–5 -/
+open LispModel.Proofs.SeedLaws (Kw readsAs utf8Of)
+
+/-- the keyword `:ʞx` (name starting with the marker U+029E) prints as `:ʞx` and reads back to itself -/
+theorem keyword_named_with_marker_round_trips :
+    (Print.print (Kw "ʞx") == ":ʞx".toList && readsAs (utf8Of (Print.print (Kw "ʞx"))) (Kw "ʞx") &&
+     readsAs (bytes% ":ʞx") (Kw "ʞx") && !readsAs (bytes% ":ʞx") (Kw "x")) = true :=
+  Proofs.SeedLaws.C06.keyword_named_with_marker_round_trips
 
 end LispModel.Props.C06
